@@ -31,6 +31,8 @@ enum FaultKind {
     Subscript,
     Overflow,
     BuiltIn,
+    /// a wrong-typed argument of a built-in statement or function (static)
+    ArgType,
 }
 
 const KINDS: &[FaultKind] = &[
@@ -38,6 +40,7 @@ const KINDS: &[FaultKind] = &[
     FaultKind::TypeMismatch,
     FaultKind::UndefinedLabel,
     FaultKind::ArgCount,
+    FaultKind::ArgType,
     FaultKind::DivZero,
     FaultKind::Subscript,
     FaultKind::Overflow,
@@ -51,6 +54,7 @@ impl FaultKind {
             FaultKind::TypeMismatch => "type-mismatch",
             FaultKind::UndefinedLabel => "undefined-label",
             FaultKind::ArgCount => "argument-count",
+            FaultKind::ArgType => "argument-type",
             FaultKind::DivZero => "division-by-zero",
             FaultKind::Subscript => "subscript-out-of-range",
             FaultKind::Overflow => "overflow",
@@ -135,6 +139,45 @@ fn fault_items(rng: &mut Rng, kind: FaultKind) -> Vec<Item> {
         .to_owned(),
         FaultKind::UndefinedLabel => (*rng.pick(&["GOTO Nowhere9", "GOSUB Nowhere9", "IF ZZ = 0 THEN GOTO Nowhere9"])).to_owned(),
         FaultKind::ArgCount => (*rng.pick(&["Q = LEN(\"a\", \"b\")", "Q$ = CHR$(65, 66)", "Q$ = MID$(\"abc\")", "Q = VAL()", "PRINT UCASE$(\"a\", \"b\")"])).to_owned(),
+        // (after a wave-12 seed: the checker of COLOR / LOCATE reported a wrong-typed argument at the position of the
+        // parser's synthetic first argument, row 1 col 1) every one is refused by the checker with the position of the
+        // offending argument on the unchanged tree
+        FaultKind::ArgType => (*rng.pick(&[
+            "LOCATE S9$, 2",
+            "COLOR , S9$",
+            "LOCATE 1, 2, S9$",
+            "COLOR S9$",
+            "LOCATE , S9$",
+            "Q$ = CHR$(\"a\")",
+            "Q$ = MID$(\"abc\", \"x\")",
+            "Q$ = UCASE$(5)",
+            "Q$ = SPACE$(\"a\")",
+            "Q = VAL(5)",
+            "OPEN 5 FOR INPUT AS #1",
+            "VIEW PRINT \"a\" TO 2",
+            "WIDTH \"a\"",
+            "Q$ = STRING$(\"a\", \"b\")",
+            "Q = INSTR(1, 2)",
+            "Q$ = LEFT$(5, 1)",
+            "Q$ = RIGHT$(\"a\", \"b\")",
+            "KILL 5",
+            "NAME 5 AS \"b\"",
+            "ENVIRON 5",
+            "Q$ = LTRIM$(5)",
+            "Q = EOF(\"a\")",
+            "Q$ = STR$(\"a\")",
+            "Q = CVD(5)",
+            "Q$ = MKD$(\"a\")",
+            "Q = PEEK(\"a\")",
+            "POKE \"a\", 1",
+            "DEF SEG = \"a\"",
+            "Q = LBOUND(5)",
+            "LINE INPUT #1, Q",
+            "GET #1, \"a\"",
+            "FIELD #1, \"a\" AS F$",
+            "LSET Q = \"a\"",
+        ]))
+        .to_owned(),
         FaultKind::DivZero => (*rng.pick(&["Q = 1 / ZZ", "Q% = 7 \\ ZZ%", "Q% = 7 MOD ZZ%", "PRINT 10 / ZZ", "Q = (V1 + 2) / (ZZ * 3)"])).to_owned(),
         FaultKind::Subscript => {
             pre.push(simple("DIM Arr9(3)"));
